@@ -93,6 +93,51 @@ func semBatchSeq(ctx *core.Ctx, idx int, res *core.Result, cs []*gen.Change, src
 	}
 }
 
+// followUpChain: changes of one patch of which the later ones match only code that the earlier ones wrote (names that
+// occur nowhere in the file as it was read; code of which every token was produced by one rewrite), with the plants
+// they start from. The operands are names of equal length.
+func followUpChain(g *gen.G, variant int) ([]*gen.Change, []gen.Plant, string) {
+	q, p := gen.MetaVar{Name: "cq", Kind: "expression"}, gen.MetaVar{Name: "cp", Kind: "expression"}
+	mk := func(schema string, metas []gen.MetaVar, minus, plus string) *gen.Change {
+		return &gen.Change{Kind: "expr", Schema: schema, Meta: metas, Lines: []gen.Line{gen.L('-', minus), gen.L('+', plus)}}
+	}
+	names := [][2]string{{"lo", "hi"}, {"a", "b"}, {"left", "rite"}, {"x1", "y1"}}
+	var plants []gen.Plant
+	plant := func(format string) {
+		for i := 0; i < 1+g.R.Intn(2); i++ {
+			n := names[g.R.Intn(len(names))]
+			plants = append(plants, gen.Plant{Kind: "expr", Text: fmt.Sprintf(format, n[0], n[1])})
+		}
+	}
+	switch variant % 4 {
+	case 0:
+		plant("chainOld(%s, %s)")
+		return []*gen.Change{
+			mk("c01-chain-1", []gen.MetaVar{q, p}, "chainOld(«cq», «cp»)", "chainMid(«cp», «cq»)"),
+			mk("c01-chain-2", []gen.MetaVar{q, p}, "chainMid(«cq», «cp»)", "chainNew(«cq», «cp»)"),
+		}, plants, "name-only-an-earlier-change-writes"
+	case 1:
+		plant("both(%s, %s)")
+		return []*gen.Change{
+			mk("c01-chain-1", []gen.MetaVar{q, p}, "both(«cq», «cp»)", "pair(one(«cq»), one(«cp»))"),
+			mk("c01-chain-2", []gen.MetaVar{q}, "one(«cq»)", "single(«cq»)"),
+		}, plants, "two-sites-in-code-one-rewrite-wrote"
+	case 2:
+		// the later change must not apply: its repeated metavariable would stand for two different names
+		plant("mk3(%s, %s)")
+		return []*gen.Change{
+			mk("c01-chain-1", []gen.MetaVar{q, p}, "mk3(«cq», «cp»)", "tri(«cq», «cp», «cq»)"),
+			mk("c01-chain-2", []gen.MetaVar{q, p}, "tri(«cq», «cp», «cp»)", "two(«cq», «cp»)"),
+		}, plants, "repeated-metavariable-in-code-one-rewrite-wrote"
+	default:
+		plant("mk3(%s, %s)")
+		return []*gen.Change{
+			mk("c01-chain-1", []gen.MetaVar{q, p}, "mk3(«cq», «cp»)", "tri(«cq», «cp», «cq»)"),
+			mk("c01-chain-2", []gen.MetaVar{q, p}, "tri(«cq», «cp», «cq»)", "two(«cq», «cp»)"),
+		}, plants, "repeated-metavariable-in-code-one-rewrite-wrote"
+	}
+}
+
 func init() {
 	core.Register(&core.Prop{
 		ID:    "C01",
@@ -152,8 +197,19 @@ func runC01(ctx *core.Ctx, idx int) *core.Result {
 				Lines: []gen.Line{gen.L('-', "litUse("+litName+", 1)"), gen.L('+', "litUsed("+litName+")")}}
 		}
 	}
+	// every 10th case: two more changes in the same patch file, the second of which matches only what the first wrote
+	var chain []*gen.Change
+	var chainPlants []gen.Plant
+	chainWord := ""
+	if idx%10 == 2 && idx%7 != 3 {
+		chain, chainPlants, chainWord = followUpChain(g, idx/10)
+	}
 	for f := 0; f < nfiles; f++ {
 		plants, kinds := g.InstancePlants(c, r.Intn(4), r.Intn(4))
+		if chain != nil {
+			plants = append(plants, chainPlants...)
+			kinds = append(kinds, chainWord)
+		}
 		if lit != nil {
 			for i := 0; i < 1+r.Intn(3); i++ {
 				arg := litName
@@ -173,6 +229,15 @@ func runC01(ctx *core.Ctx, idx int) *core.Result {
 			seq = []*gen.Change{lit, c}
 		}
 		res.Ob("patterns:with-literal-use-of-neighbours-metavariable", 1)
+		semBatchSeq(ctx, idx, res, seq, srcs, extra, idx%8 == 0, "C01")
+		return res
+	}
+	if chain != nil {
+		seq := append([]*gen.Change{c}, chain...)
+		if r.Intn(2) == 0 {
+			seq = append(append([]*gen.Change{}, chain...), c)
+		}
+		res.Ob("patterns:with-follow-up-changes:"+chainWord, 1)
 		semBatchSeq(ctx, idx, res, seq, srcs, extra, idx%8 == 0, "C01")
 		return res
 	}
